@@ -210,7 +210,7 @@ func (e *Engine) VerifyFunction(fn *ssa.Function, opts VerifyOpts) (u *Unit) {
 	x.curBlockReach = TTrue
 	for _, p := range fn.Params {
 		sort := u.W.SortOf(p.Type())
-		t := u.W.Const("p."+p.Name(), sort)
+		t := u.W.Const("arg."+p.Name(), sort)
 		x.regs[p] = t
 		f := u.typeFacts(t, p.Type(), st.alloc, 0)
 		u.AssumeRaw(f)
@@ -284,6 +284,20 @@ func (e *Engine) VerifyFunction(fn *ssa.Function, opts VerifyOpts) (u *Unit) {
 		x.frame.alloc0 = x.alloc0
 	} else {
 		x.frame = &Frame{any: true}
+	}
+	// unit-local definitions of declared-only spec functions (the function's own parameters are
+	// in scope); sound because the defined symbol is otherwise uninterpreted
+	if fc != nil {
+		for _, d := range fc.Defines {
+			env := x.specEnv(x.entry, nil)
+			env.locals = false
+			g, err := env.EvalBool(d.Expr)
+			if err != nil {
+				u.Errorf("%s: defines %q: %v", name, d.Text, err)
+				continue
+			}
+			u.AssumeRaw(g)
+		}
 	}
 	// requires
 	if fc != nil && !opts.IgnoreRequires {
